@@ -47,7 +47,7 @@ type Stats struct {
 func NewStats(prop string) *Stats {
 	proc, _ := strconv.Atoi(os.Getenv("VERIF_PROC"))
 	return &Stats{
-		Property: prop, Tier: Tier(), Proc: proc,
+		Property: prop, Tier: Tier(), Proc: proc, RapidSeed: uint64(EnvInt("VERIF_RAPID_SEED", 0)),
 		NonTrivial: map[string]struct{}{}, Labels: map[string]int64{}, Known: map[string]int64{},
 		Extra: map[string]int64{}, start: time.Now(), maxSamples: 6, sampleKinds: map[string]int{},
 	}
